@@ -1,6 +1,6 @@
 SPECIFICATION Spec
 CONSTANTS
-  Alphabet = {0, 32769, 65535, 23130}
+  Alphabet = {0, 32769, 23130}
   MaxLen = 4
 INVARIANT BitLaws
 CHECK_DEADLOCK FALSE
